@@ -245,12 +245,16 @@ def run(run):
     run.sample({"producer": meta[len(evs) // 2][0].name if meta[len(evs) // 2][0] else None, "consumer": meta[len(evs) // 2][1], "event": evs[len(evs) // 2]})
     run.extra["producers"] = len(prods)
     run.extra["consumers"] = [c[0] for c in tcons] + [c[0] for c in decoder_consumers()]
-    if not mism and not run.only:
+    # binding demonstration on a window of 40 accepted events (Polarity events are self-contained: no header event is needed)
+    badl = sorted({m[1] for m in mism})
+    w0 = next((a for a in range(0, max(1, len(evs) - 40), 40)
+               if not any(a < b <= a + 40 for b in badl) and any(e["ev"] == "Polarity" and len(e["out"]) > 1 for e in evs[a:a + 40])), None)
+    if not run.only and w0 is not None:
         def corrupt(ev2):
             i = next(i for i, e in enumerate(ev2) if e["ev"] == "Polarity" and len(e["out"]) > 1)
             ev2[i]["out"] = [1 - ev2[i]["out"][0]] + ev2[i]["out"][1:]
             return i + 1
-        ok, msg = tv.selftest_binding("Trace_Modem", evs[:40], corrupt, "noise_free_llrs_reproduce_the_bits")
+        ok, msg = tv.selftest_binding("Trace_Modem", evs[w0:w0 + 40], corrupt, "noise_free_llrs_reproduce_the_bits")
         if not ok:
             raise tlc.TLCFailure("binding self-test failed: " + msg)
         run.extra["binding_selftest"] = "flipping one consumer output bit is rejected at that line"
